@@ -14,7 +14,7 @@ import tlc
 
 OID = {'givenName': 'urn:oid:2.5.4.42', 'mail': 'urn:oid:0.9.2342.19200300.100.1.3', 'title': 'urn:oid:2.5.4.12'}
 OID_REV = dict((v, k) for k, v in OID.items())
-VAL = {'v1': u'val-one-é', 'v2': 'val-two', 'v9': 'val-nine'}
+VAL = {'v1': u'val-one-é', 'v2': 'val-two', 'v9': 'val-nine', 'V2': 'VAL-TWO'}
 VAL_REV = dict((v, k) for k, v in VAL.items())
 RS = 'http://refeds.org/category/research-and-scholarship'
 LOWER = dict((k.lower(), k) for k in OID)
@@ -42,17 +42,20 @@ def policy_dict(scn):
         d['entity_categories'] = ['refeds']
     elif p == 'ec_swamid':
         d['entity_categories'] = ['swamid']
+    elif p == 'ec_coco':
+        d['entity_categories'] = ['edugain']
     elif p == 'ec_names1':
         d['entity_categories'] = ['refeds']
         d['attribute_restrictions'] = {'givenName': None}
     return pol
 
 
-DECLS = ['none', 'req_a1', 'req_a1_v2', 'req_a3_opt_a2', 'opt_a2', 'req_a1_v9']
+DECLS = ['none', 'req_a1', 'req_a1_v2', 'req_a3_opt_a2', 'opt_a2', 'req_a1_v9', 'req_a2']
 
 
 RE = 'http://www.swamid.se/category/research-and-education'
 EU = 'http://www.swamid.se/category/eu-adequate-protection'
+COCO = 'http://www.geant.net/uri/dataprotection-code-of-conduct/v1'
 
 
 def sp_id(decl, has_cat, swamid='none'):
@@ -61,7 +64,7 @@ def sp_id(decl, has_cat, swamid='none'):
 
 def sp_ids():
     return [sp_id(d, c, sw) for d in DECLS for c in (False, True) for sw in ('none', 're_only', 're_eu')] + \
-        [sp_id(d, False, 'rs_support') for d in DECLS]
+        [sp_id(d, False, sw) for d in DECLS for sw in ('rs_support', 'coco')]
 
 
 _FED = []
@@ -96,6 +99,7 @@ def _federation():
                 out.append(env.sp_metadata(entity_id=sp_id(d, c, sw), requested=requested({'decl': d}), extra=ext(cats)))
             if not c:
                 out.append(env.sp_metadata(entity_id=sp_id(d, c, 'rs_support'), requested=requested({'decl': d}), extra=ext([], support=True)))
+                out.append(env.sp_metadata(entity_id=sp_id(d, c, 'coco'), requested=requested({'decl': d}), extra=ext([COCO])))
     return out
 
 
@@ -103,7 +107,7 @@ def requested(scn):
     decl = scn['decl']
     spec = {'none': [], 'req_a1': [('givenName', True, [])], 'req_a1_v2': [('givenName', True, ['v2'])],
             'req_a3_opt_a2': [('title', True, []), ('mail', False, [])], 'opt_a2': [('mail', False, [])],
-            'req_a1_v9': [('givenName', True, ['v9'])]}[decl]
+            'req_a1_v9': [('givenName', True, ['v9'])], 'req_a2': [('mail', True, [])]}[decl]
     return [{'name': OID[a], 'friendly': a, 'required': req, 'values': [VAL[v] for v in vals]} for a, req, vals in spec]
 
 
